@@ -2,13 +2,13 @@ from _helpers import rapid, direct, fuzz
 
 PROPS = {
     "C10": dict(pkg="rhpc", level="fault_enumeration", stages=[
-        direct("enum", "TestC10Enum"),
+        direct("enum", "TestC10Enum", quick=dict(shards=8, timeout=900), thorough=dict(shards=16, timeout=3600)),
         direct("cross", "TestC10Cross"),
-        rapid("rapid", "TestC10", dict(shards=16, checks=400), dict(shards=16, checks=3000, timeout=3000)),
+        rapid("rapid", "TestC10", dict(shards=16, checks=400), dict(shards=16, checks=20000, timeout=3000)),
         fuzz("fuzz", "FuzzC10Response", 600),
     ]),
     "C16": dict(pkg="rhpc", level="fault_enumeration", stages=[
         direct("enum", "TestC16Enum"),
-        rapid("rapid", "TestC16", dict(shards=16, checks=250), dict(shards=16, checks=800, timeout=3000)),
+        rapid("rapid", "TestC16", dict(shards=16, checks=500), dict(shards=16, checks=10000, timeout=3000)),
     ]),
 }
